@@ -48,6 +48,7 @@ import (
 	"encoding/hex"
 	"fmt"
 	"net"
+	"runtime/debug"
 	"sort"
 	"strconv"
 	"strings"
@@ -80,10 +81,8 @@ func rtID(name string) identity.AgentID {
 }
 
 func rtName(id identity.AgentID) string {
-	for _, n := range rtNames {
-		if rtID(n) == id {
-			return n
-		}
+	if i := int(id[0]) - 0x10; i >= 0 && i < len(rtNames) && rtID(rtNames[i]) == id {
+		return rtNames[i]
 	}
 	return "?" + id.String()
 }
@@ -130,59 +129,138 @@ func rtAtoi(s string) int {
 	return n
 }
 
-func (w *rtWorld) apply(ev string) *rtApplied {
+// rtEvent is an event parsed once (shared, read-only: the package clones what it stores).
+type rtEvent struct {
+	op      string
+	tbl     byte
+	peer    string
+	origin  string
+	key     string
+	seq     uint64
+	metric  uint16
+	loop    bool
+	ident   string
+	net     *net.IPNet
+	path    []identity.AgentID
+	peerID  identity.AgentID
+	origID  identity.AgentID
+	keyID   identity.AgentID
+	cidr    []RouteEntry
+	domain  []DomainRouteEntry
+	forward []ForwardRouteEntry
+}
+
+var rtEventCache sync.Map // event text -> *rtEvent
+
+func rtParse(ev string) *rtEvent {
+	if e, ok := rtEventCache.Load(ev); ok {
+		return e.(*rtEvent)
+	}
 	f := strings.Fields(ev)
-	m := w.m
-	ap := &rtApplied{Op: f[0]}
-	switch f[0] {
-	case "adv":
-		tbl, peer, origin, seq, key, metric, loop := f[1][0], f[2], f[3], uint64(rtAtoi(f[4])), f[5], uint16(rtAtoi(f[6])), f[7] == "l"
-		path := []identity.AgentID{rtID(peer)}
-		if loop {
-			path = append(path, rtID(rtLocal))
-		}
-		if origin != peer {
-			path = append(path, rtID(origin))
-		}
-		of := &rtOffer{Tbl: tbl, Origin: origin, NextHop: peer, Seq: seq, Metric: metric, Loop: loop}
-		switch tbl {
+	e := &rtEvent{op: f[0]}
+	ident := func() {
+		switch e.tbl {
 		case 'c':
-			n := MustParseCIDR(key)
-			of.Ident = n.String()
-			m.ProcessRouteAdvertise(rtID(peer), rtID(origin), seq, []RouteEntry{{Network: n, Metric: metric - 1}}, path, nil)
+			e.net = MustParseCIDR(e.key)
+			e.ident = e.net.String()
 		case 'd':
-			of.Ident = rtDomainIdent(key)
-			m.ProcessDomainRouteAdvertise(rtID(peer), rtID(origin), seq,
-				[]DomainRouteEntry{{Pattern: key, IsWildcard: strings.HasPrefix(key, "*."), Metric: metric - 1}}, path, nil)
+			e.ident = rtDomainIdent(e.key)
 		case 'f':
-			of.Ident = key
-			m.ProcessForwardRouteAdvertise(rtID(peer), rtID(origin), seq, []ForwardRouteEntry{{Key: key, Metric: metric - 1}}, path, nil)
+			e.ident = e.key
 		case 'a':
-			of.Ident = key
-			m.ProcessAgentRouteAdvertise(rtID(peer), rtID(origin), seq, rtID(key), path, nil, metric)
+			e.ident = e.key
+			e.keyID = rtID(e.key)
 		default:
 			panic("verif: bad table in " + ev)
 		}
-		ap.Offer = of
-	case "wd":
-		tbl, origin, key := f[1][0], f[2], f[3]
-		switch tbl {
+	}
+	switch f[0] {
+	case "adv":
+		e.tbl, e.peer, e.origin, e.seq, e.key, e.metric, e.loop = f[1][0], f[2], f[3], uint64(rtAtoi(f[4])), f[5], uint16(rtAtoi(f[6])), f[7] == "l"
+		e.peerID, e.origID = rtID(e.peer), rtID(e.origin)
+		e.path = []identity.AgentID{e.peerID}
+		if e.loop {
+			e.path = append(e.path, rtID(rtLocal))
+		}
+		if e.origin != e.peer {
+			e.path = append(e.path, e.origID)
+		}
+		ident()
+		switch e.tbl {
 		case 'c':
-			m.ProcessRouteWithdraw(rtID(origin), []RouteEntry{{Network: MustParseCIDR(key)}})
+			e.cidr = []RouteEntry{{Network: e.net, Metric: e.metric - 1}}
 		case 'd':
-			m.DomainTable().RemoveRoute(key, rtID(origin))
+			e.domain = []DomainRouteEntry{{Pattern: e.key, IsWildcard: strings.HasPrefix(e.key, "*."), Metric: e.metric - 1}}
 		case 'f':
-			m.ForwardTable().RemoveRoute(key, rtID(origin))
-		case 'a':
-			m.AgentTable().RemoveRoute(rtID(key), rtID(origin))
+			e.forward = []ForwardRouteEntry{{Key: e.key, Metric: e.metric - 1}}
+		}
+	case "wd":
+		e.tbl, e.origin, e.key = f[1][0], f[2], f[3]
+		e.origID = rtID(e.origin)
+		ident()
+		if e.tbl == 'c' {
+			e.cidr = []RouteEntry{{Network: e.net}}
 		}
 	case "disc":
-		ap.Peer = f[1]
-		p := rtID(f[1])
-		m.HandlePeerDisconnect(p)
-		m.HandlePeerDisconnectDomain(p)
-		m.HandlePeerDisconnectForward(p)
-		m.HandlePeerDisconnectAgent(p)
+		e.peer = f[1]
+		e.peerID = rtID(e.peer)
+	case "tick", "clean":
+	case "addl":
+		e.tbl, e.key, e.metric = f[1][0], f[2], uint16(rtAtoi(f[3]))
+		if e.tbl == 'a' {
+			panic("verif: no local agent routes: " + ev)
+		}
+		ident()
+	case "reml":
+		e.tbl, e.key = f[1][0], f[2]
+		ident()
+	case "addd":
+		e.tbl, e.key, e.metric = 'c', f[1], uint16(rtAtoi(f[2]))
+		ident()
+	case "remd":
+		e.tbl, e.key = 'c', f[1]
+		ident()
+	default:
+		panic("verif: bad event " + ev)
+	}
+	rtEventCache.Store(ev, e)
+	return e
+}
+
+func (w *rtWorld) apply(ev string) *rtApplied {
+	e := rtParse(ev)
+	m := w.m
+	ap := &rtApplied{Op: e.op}
+	switch e.op {
+	case "adv":
+		ap.Offer = &rtOffer{Tbl: e.tbl, Ident: e.ident, Origin: e.origin, NextHop: e.peer, Seq: e.seq, Metric: e.metric, Loop: e.loop}
+		switch e.tbl {
+		case 'c':
+			m.ProcessRouteAdvertise(e.peerID, e.origID, e.seq, e.cidr, e.path, nil)
+		case 'd':
+			m.ProcessDomainRouteAdvertise(e.peerID, e.origID, e.seq, e.domain, e.path, nil)
+		case 'f':
+			m.ProcessForwardRouteAdvertise(e.peerID, e.origID, e.seq, e.forward, e.path, nil)
+		case 'a':
+			m.ProcessAgentRouteAdvertise(e.peerID, e.origID, e.seq, e.keyID, e.path, nil, e.metric)
+		}
+	case "wd":
+		switch e.tbl {
+		case 'c':
+			m.ProcessRouteWithdraw(e.origID, e.cidr)
+		case 'd':
+			m.DomainTable().RemoveRoute(e.key, e.origID)
+		case 'f':
+			m.ForwardTable().RemoveRoute(e.key, e.origID)
+		case 'a':
+			m.AgentTable().RemoveRoute(e.keyID, e.origID)
+		}
+	case "disc":
+		ap.Peer = e.peer
+		m.HandlePeerDisconnect(e.peerID)
+		m.HandlePeerDisconnectDomain(e.peerID)
+		m.HandlePeerDisconnectForward(e.peerID)
+		m.HandlePeerDisconnectAgent(e.peerID)
 	case "tick":
 		w.age()
 	case "clean":
@@ -191,43 +269,30 @@ func (w *rtWorld) apply(ev string) *rtApplied {
 		m.CleanupStaleForwardRoutes(rtMaxAge)
 		m.CleanupStaleAgentRoutes(rtMaxAge)
 	case "addl":
-		tbl, key, metric := f[1][0], f[2], uint16(rtAtoi(f[3]))
-		of := &rtOffer{Tbl: tbl, Origin: rtLocal, NextHop: rtLocal, Metric: metric}
-		switch tbl {
+		switch e.tbl {
 		case 'c':
-			n := MustParseCIDR(key)
-			of.Ident = n.String()
-			m.AddLocalRoute(n, metric)
+			m.AddLocalRoute(e.net, e.metric)
 		case 'd':
-			of.Ident = rtDomainIdent(key)
-			m.AddLocalDomainRoute(key, metric)
+			m.AddLocalDomainRoute(e.key, e.metric)
 		case 'f':
-			of.Ident = key
-			m.AddLocalForwardRoute(key, "127.0.0.1:80", metric)
-		default:
-			panic("verif: bad table in " + ev)
+			m.AddLocalForwardRoute(e.key, "127.0.0.1:80", e.metric)
 		}
-		of.Seq = m.GetCurrentSequence()
-		ap.Offer = of
+		ap.Offer = &rtOffer{Tbl: e.tbl, Ident: e.ident, Origin: rtLocal, NextHop: rtLocal, Metric: e.metric, Seq: m.GetCurrentSequence()}
 	case "reml":
-		switch f[1][0] {
+		switch e.tbl {
 		case 'c':
-			m.RemoveLocalRoute(MustParseCIDR(f[2]))
+			m.RemoveLocalRoute(e.net)
 		case 'd':
-			m.RemoveLocalDomainRoute(f[2])
+			m.RemoveLocalDomainRoute(e.key)
 		case 'f':
-			m.RemoveLocalForwardRoute(f[2])
+			m.RemoveLocalForwardRoute(e.key)
 		}
 	case "addd":
-		n := MustParseCIDR(f[1])
-		metric := uint16(rtAtoi(f[2]))
-		if err := m.AddDynamicRoute(n, metric); err == nil {
-			ap.Offer = &rtOffer{Tbl: 'c', Ident: n.String(), Origin: rtLocal, NextHop: rtLocal, Metric: metric, Seq: m.GetCurrentSequence()}
+		if err := m.AddDynamicRoute(e.net, e.metric); err == nil {
+			ap.Offer = &rtOffer{Tbl: 'c', Ident: e.ident, Origin: rtLocal, NextHop: rtLocal, Metric: e.metric, Seq: m.GetCurrentSequence()}
 		}
 	case "remd":
-		_ = m.RemoveDynamicRoute(MustParseCIDR(f[1]))
-	default:
-		panic("verif: bad event " + ev)
+		_ = m.RemoveDynamicRoute(e.net)
 	}
 	return ap
 }
@@ -261,7 +326,7 @@ func (w *rtWorld) age() {
 // rtEntry is one stored route of any of the four tables.
 type rtEntry struct {
 	Tbl       byte
-	Ident     string // c: Network.String(); d: "e:"/"w:" + case-folded pattern base; f: key; a: target agent name
+	Ident     string // c: the map key (= Network.String() at insertion); d: "e:"/"w:" + case-folded pattern base; f: key; a: target agent name
 	MapKey    string // the map key it is actually stored under (d: "E:"/"W:" + key)
 	Pattern   string // d only: the stored Pattern
 	Origin    string
@@ -312,7 +377,7 @@ func (w *rtWorld) dump() *rtDump {
 		sort.Strings(keys)
 		for _, k := range keys {
 			for _, r := range m.table.routes[k] {
-				d.Entries = append(d.Entries, rtEntry{Tbl: 'c', Ident: r.Network.String(), MapKey: k, Origin: rtName(r.OriginAgent),
+				d.Entries = append(d.Entries, rtEntry{Tbl: 'c', Ident: k, MapKey: k, Origin: rtName(r.OriginAgent),
 					NextHop: rtName(r.NextHop), Seq: r.Sequence, Metric: r.Metric, Stale: r.LastUpdate.Before(w.base),
 					PathLocal: rtPathHas(r.Path, local), Net: r.Network})
 			}
@@ -361,44 +426,68 @@ func (w *rtWorld) dump() *rtDump {
 			}
 		}
 	}
-	setKeys := func(n int, each func(add func(string))) string {
-		ks := make([]string, 0, n)
-		each(func(s string) { ks = append(ks, s) })
+	var x []byte
+	x = append(x, "seq="...)
+	x = strconv.AppendUint(x, m.sequence, 10)
+	appendKeys := func(tag string, ks []string) {
 		sort.Strings(ks)
-		return strings.Join(ks, ",")
+		x = append(x, tag...)
+		for _, k := range ks {
+			x = append(x, k...)
+			x = append(x, ',')
+		}
 	}
-	d.Extra = fmt.Sprintf("seq=%d lr=[%s] dr=[%s] ld=[%s] lf=[%s]", m.sequence,
-		setKeys(len(m.localRoutes), func(add func(string)) {
-			for k := range m.localRoutes {
-				add(k)
-			}
-		}),
-		setKeys(len(m.dynamicRoutes), func(add func(string)) {
-			for k := range m.dynamicRoutes {
-				add(k)
-			}
-		}),
-		setKeys(len(m.localDomains), func(add func(string)) {
-			for k := range m.localDomains {
-				add(k)
-			}
-		}),
-		setKeys(len(m.localForwards), func(add func(string)) {
-			for k := range m.localForwards {
-				add(k)
-			}
-		}))
+	if len(m.localRoutes)+len(m.dynamicRoutes)+len(m.localDomains)+len(m.localForwards) > 0 {
+		var ks []string
+		for k := range m.localRoutes {
+			ks = append(ks, k)
+		}
+		appendKeys(" lr=", ks)
+		ks = ks[:0]
+		for k := range m.dynamicRoutes {
+			ks = append(ks, k)
+		}
+		appendKeys(" dr=", ks)
+		ks = ks[:0]
+		for k := range m.localDomains {
+			ks = append(ks, k)
+		}
+		appendKeys(" ld=", ks)
+		ks = ks[:0]
+		for k := range m.localForwards {
+			ks = append(ks, k)
+		}
+		appendKeys(" lf=", ks)
+	}
+	d.Extra = string(x)
 	return d
 }
 
-func (d *rtDump) canon() string {
-	var b strings.Builder
+func (d *rtDump) canon() []byte {
+	b := make([]byte, 0, 64+48*len(d.Entries))
+	flag := func(v bool) byte {
+		if v {
+			return '1'
+		}
+		return '0'
+	}
 	for i := range d.Entries {
 		e := &d.Entries[i]
-		fmt.Fprintf(&b, "%c|%s|%s|%s|%s|%d|%d|%v|%v;", e.Tbl, e.MapKey, e.Pattern, e.Origin, e.NextHop, e.Seq, e.Metric, e.Stale, e.PathLocal)
+		b = append(b, e.Tbl, '|')
+		b = append(b, e.MapKey...)
+		b = append(b, '|')
+		b = append(b, e.Pattern...)
+		b = append(b, '|')
+		b = append(b, e.Origin...)
+		b = append(b, '|')
+		b = append(b, e.NextHop...)
+		b = append(b, '|')
+		b = strconv.AppendUint(b, e.Seq, 10)
+		b = append(b, '|')
+		b = strconv.AppendUint(b, uint64(e.Metric), 10)
+		b = append(b, '|', flag(e.Stale), flag(e.PathLocal), ';')
 	}
-	b.WriteString(d.Extra)
-	return b.String()
+	return append(b, d.Extra...)
 }
 
 // table returns the entries of one table.
@@ -551,6 +640,8 @@ type rtReplay struct {
 
 // rtRun explores every scenario (or replays one history) and records coverage.
 func rtRun(r *vmc.Result, scs []rtScenario, oracle rtOracle) {
+	// every execution builds a fresh Manager: short-lived garbage dominates, so collect less often
+	defer debug.SetGCPercent(debug.SetGCPercent(200))
 	var runs int64
 	replaying := false
 	mkStep := func(sc *rtScenario) func(hist []string) (string, []string) {
@@ -573,7 +664,7 @@ func rtRun(r *vmc.Result, scs []rtScenario, oracle rtOracle) {
 				last = w.apply(ev)
 			}
 			after := w.dump()
-			h := sha256.Sum256([]byte(after.canon()))
+			h := sha256.Sum256(after.canon())
 			key = hex.EncodeToString(h[:16])
 			lvl, loaded := level.LoadOrStore(key, len(hist))
 			fresh := replaying || !loaded || lvl.(int) == len(hist)
